@@ -108,8 +108,14 @@ def h_container(cfg):
 
 
 class FItem:
-    def __init__(self, v):
+    """a store item; `truthy=False` makes it a falsy object (stores hold arbitrary items: 0, '', empty containers ...)"""
+
+    def __init__(self, v, truthy=True):
         self.v = v
+        self.truthy = truthy
+
+    def __bool__(self):
+        return self.truthy
 
 
 def h_store(cfg):
@@ -137,8 +143,10 @@ def h_store(cfg):
                 key[id(item)] = pr
             elif kind == 'filter':
                 x = sym_int('x%d' % k)
-                item = FItem(x)            # a distinct object per item (equal values must stay distinguishable)
+                item = FItem(x, not cfg.get('falsy'))   # a distinct object per item (equal values must stay distinguishable)
                 key[id(item)] = x
+            elif cfg.get('falsy'):
+                item = FItem(k, False)
             else:
                 item = ('it', k)
             ev = st.put(item)
@@ -298,6 +306,10 @@ def jobs(tier, seed):
     js.append({'harness': 'store', 'weight': 500,
                'cfg': {'ops': ['put'] * 6 + ['get'] * 6, 'burst': [0] + [1] * 5 + [0] + [1] * 5, 'sorts': 'int',
                        'kind': 'prio', 'symcap': False, 'cap': 8}})
+    # falsy items (0, '', empty containers are items like any other)
+    for kind in ('store', 'filter'):
+        for ops in (['put', 'get', 'get', 'put'], ['get', 'put', 'put', 'get']):
+            js.append({'harness': 'store', 'weight': 30, 'cfg': {'ops': ops, 'sorts': 'int', 'kind': kind, 'falsy': True}})
     # default (unbounded) capacities
     js.append({'harness': 'container', 'weight': 10, 'cfg': {'ops': ['get', 'put', 'get', 'put'], 'sorts': 'int', 'default_capacity': True}})
     for kind in ('store', 'prio', 'filter'):
